@@ -77,7 +77,7 @@ def gen_runs(tier):
     if tier == "quick":
         wide = dict(
             schemes=["coap", "coaps", "coaptcp"],
-            hosts=["host", "aring", "bigring", "ip4a", "ip6lo", "ip6zone"],
+            hosts=["host", "aring", "bigring", "arabic", "arabmix", "ip4a", "ip6lo", "ip6zone"],
             ports=[0, 5683, 61616],
             alphabet=ALPHABET_QUICK,
             maxpath=2,
@@ -85,7 +85,7 @@ def gen_runs(tier):
             rich=2,
             basesegs=1,
             basebudget=1,
-            profiles=[1, 2, 3, 4, 5, 6, 7],
+            profiles=[1, 2, 3, 4, 5, 6, 7, 9],
         )
         deep = dict(
             schemes=["coap"],
@@ -102,7 +102,7 @@ def gen_runs(tier):
         return [("wide", wide, "all", 10), ("deep", deep, "cases", 3)]
     wide = dict(
         schemes=["coap", "coaps", "coaptcp", "coapstcp", "coapws", "coapsws"],
-        hosts=["host", "dotted", "aring", "bigring", "numeric", "ip4a", "ip4b", "ip6lo", "ip6db8", "ip6zone"],
+        hosts=["host", "dotted", "aring", "bigring", "numeric", "arabic", "arabmix", "ip4a", "ip4b", "ip6lo", "ip6db8", "ip6zone"],
         ports=[0, 1, 80, 5683, 5684, 61616, 65535],
         alphabet=ALPHABET_THOROUGH,
         maxpath=2,
@@ -110,7 +110,7 @@ def gen_runs(tier):
         rich=2,
         basesegs=1,
         basebudget=1,
-        profiles=[1, 2, 3, 4, 5, 6, 7, 8],
+        profiles=[1, 2, 3, 4, 5, 6, 7, 8, 9, 10],
     )
     deep = dict(
         schemes=["coap"],
@@ -226,11 +226,29 @@ def case_lines(out):
 
 
 def text_of(chars):
-    """A text is printed as the sequence of its characters."""
-    s = "".join(chars)
-    if len(s) != len(chars) or not s.isascii() or "<" in s or ">" in s:
+    """A text is printed as the sequence of its characters; a non-ASCII
+    character written unescaped is printed as the one string "U+<hex>"."""
+    try:
+        s = "".join(c if len(c) == 1 else _RAW[c] for c in chars)
+    except KeyError:
+        raise MachineryError("unexpected text from TLC: %r" % (chars,))
+    if len(s) != len(chars) or "<" in s or ">" in s:
         raise MachineryError("unexpected text from TLC: %r" % (chars,))
     return s
+
+
+class _RawTokens(dict):
+    def __missing__(self, tok):
+        if not (tok.startswith("U+") and 6 <= len(tok) <= 7):
+            raise KeyError(tok)
+        c = chr(int(tok[2:], 16))
+        if c.isascii():
+            raise KeyError(tok)
+        self[tok] = c
+        return c
+
+
+_RAW = _RawTokens()
 
 
 def state_cases(v, all_variants):
@@ -791,7 +809,8 @@ def work(rep, args):
     )
     rep.assumptions += [
         "spec/CoapUri.tla is a transcribed reference (RFC 3986 serialisation, RFC 7252 6.4 / 6.5) evaluated by TLC; every comparison is a single-step one (no interleavings)",
-        "hosts are RFC 3986 reg-names, IPv4 and IPv6 literals from HostTab; IPvFuture, dot segments and unescaped non-ASCII text are not generated",
+        "hosts are RFC 3986 reg-names (incl. dotted quads of non-ASCII decimal digits), IPv4 and IPv6 literals from HostTab; IPvFuture and dot segments are not generated; "
+        "non-ASCII characters are written unescaped only in reg-names (profiles 9, 10) and never upper-case letters",
         "a reg-name with percent-encoded upper-case letters ('h%4Fst') may decompose to the all-lower-case Uri-Host or to the one 6.4 step 5 gives literally; compose/decompose stability is judged on whichever the implementation produced",
         "a single empty query ('...?') and an empty userinfo / fragment delimiter are not judged (statement silent)",
         "a default port may be spelled out or omitted in the composed URI",
